@@ -299,7 +299,7 @@ fn get_non_numeric_filter_func<'a>(
                 if !entry
                     .path()
                     .components()
-                    .last()
+                    .nth(system_user_dir_level)
                     .expect("path should have enough components")
                     .as_os_str()
                     .as_bytes()
